@@ -12,7 +12,7 @@ from __future__ import annotations
 import ast
 import re as _re
 
-from .model import PKG, AnalysisError, Program, is_property, norm
+from .model import PKG, AnalysisError, Program, is_property, norm, walk_no_nested
 from .values import (ArgsView, Bound, ClsRef, Const, Dct, EnumV, ExcV, Ext, FlagV, Func, Gen, Lam, Lst, NodeV, Obj, Part, Seq, Str,
                      Sym, Tpl, Tup, Val, mkstr, tagof)
 
@@ -149,6 +149,7 @@ class Interp:
         self.value_ctx = False
         self.steps = 0
         self.envstack: list[Env] = []  # environments of the active intra-package calls (innermost last)
+        self._yield_collect: list[list] = []
         self._tentative: list[bool] | None = None
         self._tent_tags: list[str] = []
 
@@ -233,11 +234,12 @@ class Interp:
             return env.vars[name]
         m = self.prog.modules[mod]
         v = None
-        if name in m.functions:
+        own = getattr(m.functions, "own", m.functions.__contains__)
+        if own(name):
             v = Func(mod, name, m.functions[name])
-        elif name in m.classes:
+        elif getattr(m.classes, "own", m.classes.__contains__)(name):
             v = ClsRef(f"{PKG}.{mod}.{name}")
-        elif name in m.consts:
+        elif getattr(m.consts, "own", m.consts.__contains__)(name):
             env.vars[name] = Sym(f"{mod}.{name}")  # cycle guard
             v = self.ev(m.consts[name], env)
             if isinstance(v, Tpl):
@@ -250,6 +252,10 @@ class Interp:
                 v.shared_name = f"{mod}.{name}"  # module-level dict that code writes to: other calls may have filled it
         elif name in m.imports:
             v = self.import_value(m.imports[name])
+        elif name in m.functions or name in m.classes or name in m.consts:
+            home = self.prog.locate(mod, name)  # visible through a star import of a sibling module
+            if home is not None and home[0] != mod:
+                v = self.global_lookup(home[0], home[1])
         if v is not None:
             env.vars[name] = v
         return v
@@ -465,6 +471,10 @@ class Interp:
 
     def ev_BinOp(self, e, env):
         l, r = self.ev(e.left, env), self.ev(e.right, env)
+        if isinstance(e.op, ast.BitOr) and isinstance(l, Dct) and isinstance(r, Dct):
+            merged = Dct({**l.items, **r.items})  # dict | dict: a new mapping, right operand wins
+            merged.keyvals.update({**l.keyvals, **r.keyvals})
+            return merged
         if isinstance(l, FlagV) and isinstance(r, FlagV) and l.cls == r.cls and isinstance(e.op, (ast.BitOr, ast.BitAnd, ast.BitXor)):
             m_ = l.members | r.members if isinstance(e.op, ast.BitOr) else l.members & r.members if isinstance(e.op, ast.BitAnd) else l.members ^ r.members
             return FlagV(l.cls, m_, l.universe)
@@ -677,6 +687,18 @@ class Interp:
         # only reached when the hooks ask for generator bodies to be interpreted straight through (a context manager
         # entered and left normally): the yield hands out its value and resumes with None
         v = self.ev(e.value, env) if e.value is not None else Const(None)
+        if self._yield_collect:
+            self._yield_collect[-1].append(v)  # a generator function being consumed: the values it hands out, in order
+            return Const(None)
+        self.effect("yield", v, e)
+        return Const(None)
+
+    def ev_YieldFrom(self, e, env):
+        v = self.force(self.ev(e.value, env))
+        if self._yield_collect:
+            items = self.iter_values(v, e)
+            self._yield_collect[-1].extend(items if items is not None else [Sym(f"elem({tagof(v)})", origin=("elem", v))])
+            return Const(None)
         self.effect("yield", v, e)
         return Const(None)
 
@@ -706,16 +728,22 @@ class Interp:
         sub = Env(env.mod, env.fn, env)
         src = self.iter_values(it, e)
         if src is not None:
-            out, dout = [], {}
+            out, dout, dkeys = [], {}, {}
             for x in src:
                 self.assign(g.target, x, sub)
                 if all(self.truth(self.ev(c, sub)) for c in g.ifs):
                     if kind == "dict":
                         k = self.ev(e.key, sub)
                         dout[k.v if isinstance(k, Const) else tagof(k)] = self.ev(e.value, sub)
+                        if not isinstance(k, Const):
+                            dkeys[tagof(k)] = k
                     else:
                         out.append(self.ev(e.elt, sub))
-            return Dct(dout) if kind == "dict" else Lst(out)
+            if kind == "dict":
+                dres = Dct(dout)
+                dres.keyvals.update(dkeys)
+                return dres
+            return Lst(out)
         elem = it.elem if isinstance(it, Seq) else Sym(f"elem({tagof(it)})", origin=("elem", it))
         if isinstance(it, Bound) or (isinstance(it, Sym) and it.origin and it.origin[0] == "method" and it.origin[2] == "items"):
             pass
@@ -733,6 +761,9 @@ class Interp:
     def iter_values(self, it, site):
         if isinstance(it, (Tup, Lst)) and not getattr(it, "open", False):
             return list(it.items)
+        if isinstance(it, ClsRef) and it.dotted.startswith(PKG + ".") and it.dotted.count(".") == 2:
+            _, mod_, cls_ = it.dotted.split(".")
+            return self._enum_members(mod_, cls_)  # iterating an Enum class yields its members in definition order
         if isinstance(it, Dct):
             return [it.keyvals.get(k, Const(k)) for k in it.items]
         if isinstance(it, Sym) and it.origin and it.origin[0] == "enumerate":
@@ -825,6 +856,11 @@ class Interp:
             return Sym(f"{base.tag}.{a}")
         if isinstance(base, Ext):
             return self.ext_value(base.dotted + "." + a)
+        if isinstance(base, EnumV) and a in ("value", "name"):
+            if a == "name":
+                return Const(base.member)
+            if getattr(base, "value_", None) is not None:
+                return base.value_
         if isinstance(base, ClsRef):
             if base.dotted.startswith(PKG + ".") and base.dotted.count(".") == 2:
                 _, mod, cls = base.dotted.split(".")
@@ -850,6 +886,10 @@ class Interp:
         if m is None:
             return None
         q = f"{cls}.{name}"
+        if not getattr(m.classes, "own", m.classes.__contains__)(cls) and cls in m.classes:
+            home = self.prog.locate(mod, cls)  # a class this module only re-exports: its methods live (and run) at home
+            if home is not None and home[0] != mod:
+                return self.find_method(home[0], home[1], name)
         if q in m.functions:
             return mod, q, m.functions[q]
         c = m.classes.get(cls)
@@ -997,7 +1037,19 @@ class Interp:
         """run a pending generator expression (once): whoever receives or iterates it consumes it"""
         if isinstance(v, Gen):
             if v.result is None:
-                v.result = self.comprehension(v.node, v.env, "gen")
+                if v.call is not None:
+                    fn_, a_, k_, site_ = v.call
+                    run = Func(fn_.mod, fn_.qual, fn_.node, self_val=fn_.self_val, closure=fn_.closure)
+                    run._consuming = True
+                    run.defaults = getattr(fn_, "defaults", None)
+                    self._yield_collect.append([])
+                    try:
+                        self.call_func(run, a_, k_, site_)
+                    finally:
+                        got = self._yield_collect.pop()
+                    v.result = Lst(got)
+                else:
+                    v.result = self.comprehension(v.node, v.env, "gen")
             return v.result
         return v
 
@@ -1084,10 +1136,22 @@ class Interp:
             self.effect("call", key, args, kwargs, site)
             return Sym(f"{key}()@{self.siteid(site)}", origin=("call", key, args, kwargs))
         node = f.node
-        if any(isinstance(n, (ast.Yield, ast.YieldFrom)) for n in ast.walk(node)) and not getattr(self.hooks, "run_generators", False):
+        if any(isinstance(n, (ast.Yield, ast.YieldFrom)) for n in walk_no_nested(node)) and not getattr(self.hooks, "run_generators", False) \
+                and not getattr(f, "_consuming", False):
+            if not node.decorator_list and not isinstance(node, ast.AsyncFunctionDef):
+                # a plain generator function: nothing runs until the generator is consumed
+                return Gen(None, None, call=(f, list(args), dict(kwargs), site))
             self.effect("call", key, args, kwargs, site)
             return Sym(f"{key}()@{self.siteid(site)}", origin=("call", key, args, kwargs))
         env = Env(f.mod, f.qual, f.closure)
+        if site is None and node.args.kwonlyargs and not node.args.vararg:
+            # a call made by a rule's harness (no call site): arguments it passes by position go to keyword-only parameters in
+            # declaration order when the signature has been tightened (`def _execute(self, transformed, *, params=None)`)
+            n_pos = len(node.args.posonlyargs) + len(node.args.args) - (1 if f.self_val is not None else 0)
+            if len(args) > n_pos:
+                free = [k.arg for k in node.args.kwonlyargs if k.arg not in kwargs]
+                kwargs = {**kwargs, **dict(zip(free, args[n_pos:]))}
+                args = list(args[:n_pos])
         if getattr(f, "defaults", None) and f.self_val is None:
             kwargs = self._with_captured(f, node.args, args, kwargs)
         self.bind(node.args, args, kwargs, env, f.self_val)
@@ -1217,7 +1281,14 @@ class Interp:
                 names = {n_.id if isinstance(n_, ast.Name) else n_.attr for n_ in ast.walk(val) if isinstance(n_, (ast.Name, ast.Attribute))}
                 return FlagV(cls, names & set(universe), universe)
             return FlagV(cls, (name,), universe)
-        return EnumV(f"{cls}.{name}")
+        return EnumV(f"{cls}.{name}", self.ev(dict(members)[name], self.modenv(mod)))
+
+    def _enum_members(self, mod: str, cls: str):
+        cdef = self.prog.modules[mod].classes.get(cls) if mod in self.prog.modules else None
+        names = [st.targets[0].id for st in (cdef.body if cdef is not None else [])
+                 if isinstance(st, ast.Assign) and len(st.targets) == 1 and isinstance(st.targets[0], ast.Name) and not st.targets[0].id.startswith("_")]
+        out = [self._enum_member(mod, cls, n_) for n_ in names]
+        return out if out and all(x is not None for x in out) else None
 
     def class_attr(self, mod: str, cls: str, name: str):
         """value of a class-level assignment `name = ...` / `name: T = ...` (evaluated once per run in the module's environment)"""
@@ -1387,6 +1458,10 @@ class Interp:
                 except (TypeError, ValueError):
                     pass
             return Sym(f"{b}({','.join(tagof(x) for x in args)})", origin=("call", b, args, kwargs))
+        if d == "itertools.chain":
+            parts_ = [self.iter_values(self.force(x), site) for x in args]
+            if all(p_ is not None for p_ in parts_):
+                return Lst([y for p_ in parts_ for y in p_])  # consumed once, in order
         if d == "functools.partial" and args:
             return Part(args[0], args[1:], kwargs)
         if d == "re.compile" and args:
@@ -1954,6 +2029,12 @@ class Interp:
         if isinstance(s, ast.AugAssign):
             cur = self.ev(s.target, env)
             rhs = self.ev(s.value, env)
+            if isinstance(s.op, ast.BitOr) and isinstance(cur, Dct) and isinstance(rhs, Dct):
+                cur.items.update(rhs.items)  # dict |= dict is an in-place update: every alias sees it
+                cur.keyvals.update(rhs.keyvals)
+                for k_, v_ in rhs.items.items():
+                    self.effect("dictset", cur, rhs.keyvals.get(k_, Const(k_)), v_, s)
+                return
             if isinstance(s.op, ast.Add) and isinstance(cur, Lst) and isinstance(rhs, (Lst, Tup)):
                 cur.items.extend(rhs.items)  # list += is an in-place extend: every alias of the list sees it
                 self.effect("list-extend", cur, rhs, s)
